@@ -5,14 +5,6 @@ CONSTANT Gids <- MCGids
 CONSTANT Modes <- MCModes
 CONSTANT Errs <- MCErrs
 SPECIFICATION MSpec
-INVARIANT TypeOK
-INVARIANT AcceptArgsAreKernelCreds
-INVARIANT RefusalReported
-INVARIANT NoConnectionWithoutAccept
-INVARIANT NoMsgFromRefused
-INVARIANT RefusedLeavesNothing
-INVARIANT ResKnown
-INVARIANT DirNoOther
+CONSTRAINT NoKF_Dir
 INVARIANT FileModeWithinChosen
-INVARIANT OwnerAuthorised
 CHECK_DEADLOCK FALSE
